@@ -12,6 +12,7 @@ CONSTANTS
   DirectOpen = FALSE
   QueryOpen = TRUE
   QueryTouches = FALSE
+  Routes = {"contract", "direct"}
   TallyOnly = FALSE
 VIEW view
 CONSTRAINT Viable
